@@ -980,3 +980,58 @@ _run_c12g = run
 def run(ctx):  # noqa: F811
     _run_c12g(ctx)
     r12_12(ctx, ctx.model)
+
+
+# ---------------------------------------------------------------------------------------------------------------- R12.13
+def r12_13(ctx, m):
+    R = "R12.13"
+    ctx.rule(R, "likelihood_impl._get_cov_inv_and_std_inv: an argument the function itself tests with callable(...) (scalars and arrays "
+                "are accepted and wrapped) is never CALLED on a path where that test has not been made - contradiction rule: the "
+                "non-callable form is handled in one branch and called in another", floor=1)
+    fi = m.func(IMPL, "_get_cov_inv_and_std_inv", required=False)
+    if fi is None:
+        ctx.und(R, f"{IMPL}::_get_cov_inv_and_std_inv", "function missing", IMPL)
+        return
+    ctx.saw_func(fi)
+    from ..util import cfg_of, find_nodes, known_atoms
+    cfg = cfg_of(fi)
+    tested = {src(c.args[0]) for c in ast.walk(fi.node) if isinstance(c, ast.Call) and src(c.func) == "callable" and c.args and isinstance(c.args[0], ast.Name)
+              and c.args[0].id in fi.params()}
+    # aliases: name = <param> if ... else ...   /   name = <param>
+    alias = {}
+    for st in walk_no_nested(fi.node):
+        if isinstance(st, ast.Assign) and len(st.targets) == 1 and isinstance(st.targets[0], ast.Name):
+            v = st.value
+            none_test = isinstance(v, ast.IfExp) and isinstance(v.test, ast.Compare) and isinstance(v.test.ops[0], (ast.Is, ast.IsNot)) \
+                and isinstance(v.test.comparators[0], ast.Constant) and v.test.comparators[0].value is None
+            srcs = [v] if isinstance(v, ast.Name) else ([v.body, v.orelse] if none_test else [])
+            if any(isinstance(z, ast.Name) and z.id in tested for z in srcs):
+                alias[st.targets[0].id] = st
+    names = tested | set(alias)
+    dom = cfg.dominators()
+    n = 0
+    for node, c in find_nodes(cfg, lambda q: isinstance(q, ast.Call) and isinstance(q.func, ast.Name) and q.func.id in names):
+        n += 1
+        x = c.func.id
+        atoms = known_atoms(cfg, node.id)
+        ok = any(pol and src(t) == f"callable({x})" for t, pol in atoms) or any((not pol) and src(t) == f"callable({x})" and False for t, pol in atoms)
+        if not ok:
+            # idiom: `if not callable(x): x = <wrapper>` dominating the call
+            for d in dom.get(node.id, ()):
+                a = cfg.nodes[d].ast
+                if cfg.nodes[d].kind == "test" and src(a).replace(" ", "") in (f"notcallable({x})",):
+                    ifs = [st for st in walk_no_nested(fi.node) if isinstance(st, ast.If) and st.test is a]
+                    if ifs and any(isinstance(b, ast.Assign) and src(b.targets[0]) == x for b in ifs[0].body) and not ifs[0].orelse:
+                        ok = True
+        ctx.check(R, f"{fi.key}::`{short(c, 40)}` is called only when it is callable", ok,
+                  "" if ok else f"`{x}` may be the documented non-callable form here (it is tested with callable() elsewhere in the function)", fi, c)
+    if not n:
+        ctx.und(R, f"{fi.key}::calls of optional callables", "none found", fi)
+
+
+_run_c12h = run
+
+
+def run(ctx):  # noqa: F811
+    _run_c12h(ctx)
+    r12_13(ctx, ctx.model)
